@@ -1,5 +1,9 @@
 import Sudachi.Proofs.Rewrite
 import Sudachi.Proofs.RewriteDepth
+import Sudachi.Proofs.RewriteNumeral
+import Sudachi.Proofs.RewriteIdem
+import Sudachi.Proofs.RewriteF3
+import Sudachi.Proofs.RewriteLocal
 /-!
 # C14 — Path-rewrite plugins only merge adjacent tokens and preserve the text
 
@@ -33,6 +37,16 @@ connection ids) is part of `RN`/`RK`/`RS`; `split_path` after the plugins is in 
 order (`stack_applies_in_order`, `plugin_order_matters_counterexample`); idempotence is false for the
 numeral joiner (`numeric_not_idempotent_counterexample`, finding F3) and not proved for the katakana
 joiner (oracle + correspondence + instances).
+
+Third round (depth): the katakana joiner is IDEMPOTENT (`katakana_idempotent`, for every path whose nodes
+are well-formed and ordered — `KWF`, implied by contiguity — with `katakana_idempotent_needs_order_counterexample`
+showing that the hypothesis cannot be dropped in the model), by way of the full characterisation of one loop
+iteration on a maximal katakana run (`katakana_step_on_run`, an equation for `kstep` that covers the join and
+the no-join outcome); the numeral joiner's gate (`numeral_gate`, `merged_numeral_pos`, `no_numeral_no_join`,
+and `any_gate_breaks_merged_pos_counterexample` for the gate of seeded change C14c); the mechanism of F3
+(`merged_separator_token_not_numeric`: a joined token that contains a separator is not a candidate any more;
+`numeric_run_before_opaque_token_is_joined_partial`: a sufficient condition for "this run of the plugin shortens
+the path", with the second run of the F3 witness as an instance: `numeric_second_run_changes_witness`).
 
 Two clauses of the property are **false** for the code as it is; both are proved on concrete
 witnesses (`…_counterexample`) and reproduced on the implementation by the harness:
@@ -651,5 +665,277 @@ example (v : NVariant) :
     ∃ m, joinNumeric v { numPos := 1, enableNormalize := false } [260, 260] pAll [oIchi, oNi] = .ok [m] ∧
       normForm m = ['1'] ∧ normForm oIchi ++ normForm oNi = ['1', '二'] ∧ m.surface = ['一', '二'] :=
   ⟨mergedNode oIchi oNi [oIchi, oNi] none, by cases v <;> decide, by decide, by decide, by decide⟩
+
+
+/-! ### third round: the numeral joiner's gate; idempotence of the katakana joiner; the mechanism of F3 -/
+
+/-- `JoinNumericPlugin::concat`, the gate in front of every numeral merge: a run whose FIRST node does not carry
+the numeral POS is left as it is (whatever the parser says, however long the run is); with the numeral POS at
+the head a run of more than one node is `concat_nodes` on the whole run. -/
+theorem numeral_gate (cfg : NCfg) (P : List Char → POut) (path : List Node) (b e : Nat) (acc : List Char)
+    (f : Node) (hf : path[b]? = some f) :
+    (f.pos ≠ cfg.numPos → nconcat cfg P path b e acc = .ok path) ∧
+      (f.pos = cfg.numPos → 1 < e - b → nconcat cfg P path b e acc =
+        concatNodes path b e (if cfg.enableNormalize then some (P acc).norm else none)) :=
+  ⟨nconcat_gate_closed cfg P path b e acc f hf, nconcat_gate_open cfg P path b e acc f hf⟩
+
+/-- `merged_numeral_pos`: EVERY token the numeral joiner makes has exactly the configured numeral POS id — for
+every path, class table, parser behaviour, setting, both loop variants, every amount of fuel and every
+intermediate loop state: a token of the result is a token of the input (kept identically), or it spans a
+block of input tokens whose FIRST token carries the numeral POS (the gate), carries that POS itself
+(`concat_nodes` copies the POS of the first token) and has no word id.
+(Seeded change C14c — gate on ANY node of the run, POS still copied from the head — falsifies `m.pos = cfg.numPos`:
+`any_gate_breaks_merged_pos_counterexample`.) -/
+theorem merged_numeral_pos (v : NVariant) (cfg : NCfg) (cat : List Nat) (P : List Char → POut)
+    (fuel : Nat) (st : NState) (q : List Node) (h : nloop v cfg cat P fuel st = .ok q) :
+    ∀ m ∈ q, m ∈ st.path ∨ (m.pos = cfg.numPos ∧ m.wid = WID_INVALID ∧
+      ∃ pre blk post f, st.path = pre ++ blk ++ post ∧ Spans blk m ∧ blk.head? = some f ∧ f.pos = cfg.numPos) := by
+  intro m hm
+  rcases (nloop_coarsens v cfg cat P fuel st q h).classify m hm with h1 | ⟨pre, blk, post, e, hs, hr⟩
+  · exact .inl h1
+  · obtain ⟨f, hf, hp⟩ := hr.2.1
+    exact .inr ⟨hr.1, hr.2.2.1, pre, blk, post, f, e, hs, hf, hp⟩
+
+/-- … in particular for the plugin as it is called (`joinNumeric` = the loop from the initial state). -/
+theorem merged_numeral_pos_plugin (v : NVariant) (cfg : NCfg) (cat : List Nat) (P : List Char → POut)
+    (path q : List Node) (h : joinNumeric v cfg cat P path = .ok q) :
+    ∀ m ∈ q, m ∈ path ∨ (m.pos = cfg.numPos ∧ m.wid = WID_INVALID) := by
+  intro m hm
+  rcases merged_numeral_pos v cfg cat P _ _ q h m hm with h1 | ⟨h1, h2, _⟩
+  · exact .inl h1
+  · exact .inr ⟨h1, h2⟩
+
+/-- The gate, for the whole loop: a path WITHOUT any token of the numeral POS is returned unchanged (every joined
+block is headed by such a token), whatever its character classes are — digits that are proper nouns, OOV digits
+with another POS, separators. -/
+theorem no_numeral_no_join (v : NVariant) (cfg : NCfg) (cat : List Nat) (P : List Char → POut)
+    (path q : List Node) (hno : ∀ n ∈ path, n.pos ≠ cfg.numPos)
+    (h : joinNumeric v cfg cat P path = .ok q) : q = path :=
+  (nloop_coarsens v cfg cat P _ _ q h).eq_of_no_witness (RN_head_witness cfg) hno
+
+/-- `24` (a proper noun, POS 5, class NUMERIC) followed by the numeral `7` (POS 1) -/
+def g24 : Node := { dA with e := 2, eb := 2, wid := 40, pos := 5, hwl := 2, surface := ['2', '4'] }
+def g7 : Node := { dA with b := 2, e := 3, bb := 2, eb := 3, wid := 41, tc := 9, surface := ['7'] }
+
+/-- The gate must test the node the POS is copied from.  With the gate of seeded change C14c (`nconcatAny`: ANY
+node of the run is a numeral) the run `24|7` is joined and the joined token has the POS of `24` (5), not the
+numeral POS (1): `merged_numeral_pos` fails for that variant; the code as it is leaves the run alone. -/
+theorem any_gate_breaks_merged_pos_counterexample :
+    ∃ m, nconcatAny { numPos := 1, enableNormalize := false } pAll [g24, g7] 0 2 ['2', '4', '7'] = .ok [m] ∧
+      m.pos = 5 ∧ m.pos ≠ 1 ∧
+      nconcat { numPos := 1, enableNormalize := false } pAll [g24, g7] 0 2 ['2', '4', '7'] = .ok [g24, g7] ∧
+      (∀ v, joinNumeric v { numPos := 1, enableNormalize := false } [16, 16, 16] pAll [g24, g7] = .ok [g24, g7]) :=
+  ⟨mergedNode g24 g7 [g24, g7] none, by decide, by decide, by decide, by decide, fun v => by cases v <;> decide⟩
+
+/-- the hypothesis of `no_numeral_no_join` is satisfiable on a path of digits (and sharp: with a numeral at the
+head the same digits are joined) -/
+example : (∀ n ∈ [g24, { g7 with pos := 0 }], n.pos ≠ ({ numPos := 1, enableNormalize := false } : NCfg).numPos) ∧
+    (∀ v, joinNumeric v { numPos := 1, enableNormalize := false } [16, 16, 16] pAll [{ g24 with pos := 1 }, g7] =
+      .ok [mergedNode { g24 with pos := 1 } g7 [{ g24 with pos := 1 }, g7] none]) :=
+  ⟨by decide, fun v => by cases v <;> decide⟩
+
+/-- `set_up`: an absent `enableNormalize` means `true` (the driver's field `N::<pos>`) -/
+example : enableNormalizeOf none = true ∧ enableNormalizeOf (some false) = false := ⟨rfl, rfl⟩
+
+/-! #### idempotence of the katakana joiner -/
+
+/-- One iteration of `JoinKatakanaOovPlugin::rewrite_gen` on a MAXIMAL katakana run, as an equation (it covers the
+join and the no-join outcome, so it is the converse of `katakana_join_decision` as well): if the path reads
+`pre ++ s ++ t ++ post` where the node before and the node after `s ++ t` are not katakana, `s ++ t` are all
+katakana, `s` are the leading NOOOVBOW-initial nodes and `t` begins with a node that may begin an OOV word, then at
+every index of the run the loop joins exactly `t` iff the node at the index is OOV or shorter than `minLength` and
+`t` has more than one node; otherwise it moves on. -/
+theorem katakana_step_on_run (cfg : KCfg) (cat : List Nat) (pre s t post : List Node) (k : Nat) (node : Node)
+    (hpre : ∀ x, pre.getLast? = some x → isKatakana cat x = .ok false)
+    (hs : ∀ n ∈ s, isKatakana cat n = .ok true ∧ canOovBow cat n = .ok false)
+    (ht : ∀ n ∈ t, isKatakana cat n = .ok true)
+    (hth : ∀ x, t.head? = some x → canOovBow cat x = .ok true)
+    (hpost : ∀ x, post.head? = some x → isKatakana cat x = .ok false)
+    (hk : (s ++ t)[k]? = some node) :
+    kstep cfg cat (pre ++ s ++ t ++ post) (pre.length + k) node =
+      (if isOov node then Outcome.ok true else isShorter cfg node).bind fun cand =>
+        if !cand then .ok .next
+        else if t.length > 1 then .ok (.join (pre.length + s.length) (pre.length + s.length + t.length))
+        else .ok .next :=
+  kstep_on_run cfg cat pre s t post k node hpre hs ht hth hpost hk
+
+/-- IDEMPOTENCE of the katakana joiner: running it on its own output changes nothing — for every class table,
+setting and every path whose nodes are well-formed and ordered (`KWF`: `n.b ≤ n.e` for every node and
+`a.b ≤ c.e` for every node `c` after `a`; every contiguous path is, `katakana_idempotent_contig`).
+Loop invariant: all indices left of the scan index are settled (`kstep = next`) in the CURRENT path; a join
+re-establishes it (`Rewrite.join_settled`: left of the maximal run nothing changes — `kstep` is local —, the
+skipped NOOOVBOW nodes and the joined token form a run whose joinable part has one node, the node after it is
+not katakana). -/
+theorem katakana_idempotent (cfg : KCfg) (cat : List Nat) (path q : List Node) (hwf : KWF path)
+    (h : joinKatakana cfg cat path = .ok q) : joinKatakana cfg cat q = .ok q :=
+  joinKatakana_idempotent cfg cat path q hwf h
+
+/-- … at the level of the loop: from ANY state (fuel, scan index) whose left part is settled, the result is a
+fixed point of the loop from every index. -/
+theorem katakana_loop_idempotent (cfg : KCfg) (cat : List Nat) (fuel : Nat) (path : List Node) (i : Nat)
+    (q : List Node) (hwf : KWF path) (hset : ∀ j < i, Settled cfg cat path j)
+    (h : kloop cfg cat fuel path i = .ok q) :
+    ∀ fuel' i', q.length - i' < fuel' → kloop cfg cat fuel' q i' = .ok q :=
+  kloop_idempotent cfg cat fuel path i q hwf hset h
+
+/-- … for the paths the tokenizer produces: tokens touch and none has a negative length. -/
+theorem katakana_idempotent_contig (cfg : KCfg) (cat : List Nat) (path q : List Node) (hc : Contig path)
+    (hb : ∀ n ∈ path, n.b ≤ n.e) (h : joinKatakana cfg cat path = .ok q) : joinKatakana cfg cat q = .ok q :=
+  joinKatakana_idempotent_of_contig cfg cat path q hc hb h
+
+/-- two one-character katakana nodes in the wrong order: `[5,6)` before `[1,2)` -/
+def kFar : Node := { kA with b := 5, e := 6, bb := 15, eb := 18, wid := 21 }
+def kNear : Node := { kA with b := 1, e := 2, bb := 16, eb := 19, wid := 22 }
+
+/-- The order hypothesis of `katakana_idempotent` cannot be dropped IN THE MODEL: the first run never evaluates
+`num_codepts()` of the token it has just made (`i = begin + 1; i += 1`), the second run does.  On the ill-ordered
+path `[5,6) [1,2)` (never produced by the tokenizer) the joined token has `begin = 5 > end = 2`; it is not OOV
+(`minLength` triggered the join), so the second run computes `end - begin` in `usize`: a panic. -/
+theorem katakana_idempotent_needs_order_counterexample :
+    ∃ q, joinKatakana { oovPos := 5, minLength := 3 } [0, 128, 0, 0, 0, 128] [kFar, kNear] = .ok q ∧
+      joinKatakana { oovPos := 5, minLength := 3 } [0, 128, 0, 0, 0, 128] q = .panic ∧
+      ¬ KWF [kFar, kNear] := by
+  refine ⟨[mergedOovNode kFar kNear [kFar, kNear] 5], by decide, by decide, ?_⟩
+  intro h
+  have := h.2
+  simp [kFar, kNear, kA] at this
+
+/-- the hypotheses of `katakana_idempotent` are satisfiable with a genuine merge and a skipped NOOOVBOW node -/
+example : KWF [kBar, kA1, kI1] ∧ joinKatakana { oovPos := 5, minLength := 0 } [1073741952, 128, 128] [kBar, kA1, kI1] =
+      .ok [kBar, mergedOovNode kA1 kI1 [kA1, kI1] 5] := by
+  refine ⟨⟨by decide, ?_⟩, by decide⟩
+  simp [kBar, kA1, kI1, kA, kI]
+
+/-! #### the mechanism of F3 (numeral joiner not idempotent) -/
+
+/-- First half of the mechanism: a token joined by `concat_nodes` whose range covers a node that is NOT numeric by
+class (a separator `.` or `,` accepted by its normalised form) is itself not numeric by class
+(`cat_of_range` = AND over all characters), for every class table: in a later run of the plugin it is no
+candidate any more (unless its normalised form is a bare separator) — it ENDS the candidate run before it. -/
+theorem merged_separator_token_not_numeric (cat : List Nat) (f l : Node) (blk : List Node)
+    (nf : Option (List Char)) (n : Node) (c c' : Nat) (h1 : f.b ≤ n.b) (h2 : n.b < n.e) (h3 : n.e ≤ l.e)
+    (hc : catOfRange cat (mergedNode f l blk nf).b (mergedNode f l blk nf).e = some c)
+    (hc' : catOfRange cat n.b n.e = some c') (hn : isNumericCat c' = false) : isNumericCat c = false :=
+  mergedNode_not_numeric cat f l blk nf n c c' h1 h2 h3 hc hc' hn
+
+/-- Second half: WHEN a run of the plugin shortens the path.  Sufficient condition, for every parser behaviour,
+class table, setting and both loop variants: the path begins with a candidate run `R` of at least two nodes headed by
+a numeral, followed by a `,` that the parser accepts but after which it is not `done()` with a pending COMMA error,
+followed by a node `m` that is NOT a candidate (not numeric by class, normalised form not an armed separator) —
+then the trailing-separator rule joins `R` and the result is shorter than the input.
+This is what happens in the SECOND run on the F3 witness (`numeric_second_run_changes_witness`): `m` is the
+token `5.5` made by the first run (`merged_separator_token_not_numeric`), whereas in the FIRST run the same
+position was held by the candidates `5|.|5`, the candidate run went on, the `.` was rejected with a COMMA error and
+the whole run was re-scanned with the commas demoted.
+PARTIAL: the full statement wanted is an equivalence — `joinNumeric v cfg cat P q = .ok q' → (q' ≠ q ↔ C q)` for a
+condition `C` on the first run's output `q`; proved here is one direction for one shape of `C` (run at the head
+of the path, COMMA; the closing step `Rewrite.nstep_close_sep` covers POINT as well).  The converse cannot hold for
+an arbitrary parser `P`: with `enableNormalize` the second run feeds the parser the RENDERINGS made by the first
+run, about which nothing is known for an arbitrary `P`; for the real parser it is C15's subject. -/
+theorem numeric_run_before_opaque_token_is_joined_partial (v : NVariant) (cfg : NCfg) (cat : List Nat)
+    (P : List Char → POut) (R : List Node) (c m : Node) (rest : List Node) (ct : Nat)
+    (hR : 2 ≤ R.length) (hpos : ∀ f, R.head? = some f → f.pos = cfg.numPos)
+    (hcand : ∀ n ∈ R ++ [c], ∃ ctn, catOfRange cat n.b n.e = some ctn ∧ isCand true true ctn (normForm n) = true)
+    (hc : normForm c = [','])
+    (hacc : ∀ k, k < (R ++ [c]).length →
+      ¬ (P (accOf ((R ++ [c]).take (k + 1)))).n < (accOf ((R ++ [c]).take (k + 1))).length)
+    (hdone : (P (accOf (R ++ [c]))).done = false) (herr : (P (accOf (R ++ [c]))).err = E_COMMA)
+    (hm : catOfRange cat m.b m.e = some ct) (hmc : isCand true true ct (normForm m) = false)
+    (q' : List Node) (h : joinNumeric v cfg cat P (R ++ c :: m :: rest) = .ok q') :
+    q'.length < (R ++ c :: m :: rest).length :=
+  joinNumeric_shrinks v cfg cat P R c m rest ct hR hpos hcand hc hacc hdone herr hm hmc q' h
+
+/-- The F3 witness as an instance (also the non-vacuity of every hypothesis above: `Rewrite.f3_second_run_hyps`):
+the output `1|,|234|,|5.5` of the first run satisfies the condition with `R = 1|,|234`, `m = 5.5`, so EVERY
+successful second run returns fewer than 5 tokens — it is not the first run's output —, and `5.5` is not numeric by
+class because it covers the `.`. -/
+theorem numeric_second_run_changes_witness (v : NVariant) (q' : List Node)
+    (h : joinNumeric v { numPos := 1, enableNormalize := true } wf3cat wf3P
+      [wf3o1, wf3c1, wf3o234, wf3c2, wf3m55] = .ok q') :
+    q'.length < 5 ∧ q' ≠ [wf3o1, wf3c1, wf3o234, wf3c2, wf3m55] ∧
+      (∀ c, catOfRange wf3cat wf3m55.b wf3m55.e = some c → isNumericCat c = false) ∧
+      [wf3o1, wf3c1, wf3o234, wf3c2, wf3m55] = [f3o1, f3c1, f3o234, f3c2, f3m55] :=
+  ⟨f3_second_run_shrinks v q' h, f3_second_run_changes v q' h, fun c hc => f3_m55_not_numeric c hc, rfl⟩
+
+
+/-- Observation about `rewrite_gen` (no clause of C14 is violated; reproduced on the implementation by the directed
+cases 25/26, distribution key `observation:closed-gate-rescan`): `i = begin_idx + 1` is executed also when `concat`
+did nothing because the gate was closed.  The index then goes BACK to the node after the head, that node is skipped
+and the rest of the run is scanned again as a run of its own: `24|7|5|3|あ` (`24` a proper noun) becomes `24|7|53|あ`
+— `7` stays alone, `5|3` are joined —, while the same digits at the end of the text (tail case, no re-scan) stay
+`24|7|5|3`. -/
+def g5 : Node := { dA with b := 3, e := 4, bb := 3, eb := 4, wid := 42, tc := 12, surface := ['5'] }
+def g3 : Node := { dA with b := 4, e := 5, bb := 4, eb := 5, wid := 43, tc := 15, surface := ['3'] }
+def gX : Node := { dA with b := 5, e := 6, bb := 5, eb := 8, wid := 9, tc := 20, pos := 0, surface := ['あ'] }
+example (v : NVariant) :
+    joinNumeric v { numPos := 1, enableNormalize := false } [16, 16, 16, 16, 16, 64] pAll [g24, g7, g5, g3, gX] =
+      .ok [g24, g7, mergedNode g5 g3 [g5, g3] none, gX] ∧
+    joinNumeric v { numPos := 1, enableNormalize := false } [16, 16, 16, 16, 16] pAll [g24, g7, g5, g3] =
+      .ok [g24, g7, g5, g3] := by
+  cases v <;> decide
+
+
+/-! ### towards commutation of the two plugins: each loop can be cut at a node that is inert for it
+
+Full statement wanted (NOT proved): if no node of the path is both katakana and a numeral candidate (and joined
+tokens inherit that: contiguous path, no joined katakana token whose surface is a bare separator), then
+`rewriteAll v cat P [.numeric n, .katakana k] path = rewriteAll v cat P [.katakana k, .numeric n] path`.
+Proved are the two LOCALITY theorems it reduces to (an induction over the alternating segments of the path and the
+class facts of joined tokens — `merged_separator_token_not_numeric`, `katakana_merged_block_classes` — remain):
+the katakana joiner works segment by segment between non-katakana nodes, the numeral joiner works segment by
+segment between nodes that reset it, and what it does left of such a node does not depend on which node it is. -/
+
+/-- The katakana joiner can be cut at any node that is not katakana: the result on `A ++ x :: B` is the result on
+`A`, then `x`, then the result on `B` — errors and panics included (`Outcome.bind`), every class table and setting.
+(`x.b ≤ x.e`: `num_codepts()` of `x` is evaluated.) -/
+theorem katakana_cut_at_non_katakana (cfg : KCfg) (cat : List Nat) (A B : List Node) (x : Node)
+    (hx : isKatakana cat x = .ok false) (hxe : x.b ≤ x.e) :
+    joinKatakana cfg cat (A ++ x :: B) =
+      (joinKatakana cfg cat A).bind fun a => (joinKatakana cfg cat B).bind fun b => .ok (a ++ x :: b) :=
+  joinKatakana_split cfg cat A B x hx hxe
+
+/-- The numeral joiner (repaired loop) can be cut at any node that RESETS it (`Resets`: not numeric by class, normalised
+form neither `,` nor `.` — it closes the open run and re-arms both flags): the result on `A ++ x :: B` is the
+result on `A ++ [x]` followed by the result on `B`, for every class table, setting and every parser that rejects a
+separator as first character (`SepNotFirst`; the real parser does). -/
+theorem numeral_cut_at_resetting_node (cfg : NCfg) (cat : List Nat) (P : List Char → POut) (hP : SepNotFirst P)
+    (A B : List Node) (x : Node) (hx : Resets cat x) (a b : List Node)
+    (ha : joinNumeric .fix cfg cat P (A ++ [x]) = .ok a) (hb : joinNumeric .fix cfg cat P B = .ok b) :
+    joinNumeric .fix cfg cat P (A ++ x :: B) = .ok (a ++ b) :=
+  joinNumeric_split cfg cat P hP A B x hx a b ha hb
+
+/-- … for BOTH loop variants with explicit fuel (the loop itself, not the driver's fuel). -/
+theorem numeral_loop_cut_at_resetting_node (v : NVariant) (cfg : NCfg) (cat : List Nat) (P : List Char → POut)
+    (hP : SepNotFirst P) (A B : List Node) (x : Node) (hx : Resets cat x) (a b : List Node) (F1 F2 : Nat)
+    (ha : nloop v cfg cat P F1 (nInit (A ++ [x])) = .ok a) (hb : nloop v cfg cat P F2 (nInit B) = .ok b) :
+    nloop v cfg cat P (F1 + F2) (nInit (A ++ x :: B)) = .ok (a ++ b) :=
+  nloop_split v cfg cat P hP A B x hx a b F1 F2 ha hb
+
+/-- … and what the numeral joiner does LEFT of a resetting node does not depend on which resetting node follows
+(a katakana token or the token the katakana joiner puts in its place). -/
+theorem numeral_left_part_independent_of_reset (cfg : NCfg) (cat : List Nat) (P : List Char → POut)
+    (hP : SepNotFirst P) (A : List Node) (x : Node) (hx : Resets cat x) (a : List Node)
+    (ha : joinNumeric .fix cfg cat P (A ++ [x]) = .ok a) :
+    ∃ a0, a = a0 ++ [x] ∧ ∀ x', Resets cat x' → joinNumeric .fix cfg cat P (A ++ [x']) = .ok (a0 ++ [x']) :=
+  joinNumeric_reset_last cfg cat P hP A x hx a ha
+
+/-- `SepNotFirst` cannot be dropped: with a parser that ACCEPTS a lone `,` (not `done()`, COMMA error) the run `,`
+is closed at the resetting node `x` by the trailing-separator rule with an EMPTY range (`concat(begin, i - 1)`,
+`i - 1 = begin`), nothing is joined, and `i = begin_idx + 2` puts the index one node PAST `x`: on `,|x|1|2` the `1`
+is never examined and `1|2` stay apart (4 tokens), although `,|x` alone gives 2 tokens and `1|2` alone is joined
+to 1.  (The real parser rejects a leading separator, so the implementation never gets there.) -/
+theorem numeral_cut_needs_sep_not_first_counterexample :
+    Resets cxCat (cxNode 1 ['x']) ∧
+    cxLen (joinNumeric .fix cxCfg cxCat cxP ([cxNode 0 [',']] ++ [cxNode 1 ['x']])) = some 2 ∧
+    cxLen (joinNumeric .fix cxCfg cxCat cxP [cxNode 2 ['1'], cxNode 3 ['2']]) = some 1 ∧
+    cxLen (joinNumeric .fix cxCfg cxCat cxP
+      ([cxNode 0 [',']] ++ cxNode 1 ['x'] :: [cxNode 2 ['1'], cxNode 3 ['2']])) = some 4 ∧ ¬ SepNotFirst cxP :=
+  ⟨joinNumeric_split_counterexample.1, joinNumeric_split_counterexample.2.1, joinNumeric_split_counterexample.2.2.1,
+    joinNumeric_split_counterexample.2.2.2, fun h => absurd h.1 (by decide)⟩
+
+/-- the hypotheses are satisfiable: `あ` (class 64) resets the numeral loop and is not katakana, the witness parser
+rejects a leading separator; `1|2|あ|1|2` is joined on both sides of `あ` -/
+example : Resets [16, 16, 64] dX ∧ isKatakana [16, 16, 64] dX = .ok false ∧ dX.b ≤ dX.e ∧ SepNotFirst f3P :=
+  ⟨⟨64, by decide, by decide, by decide, by decide⟩, by decide, by decide, by decide, by decide⟩
 
 end C14
